@@ -8,12 +8,17 @@ SRC = "c13_uri.c"
 NCROSS = 5 * 6 * 6 * 14 * 7 * 14  # scheme x userinfo x host x port x path x query classes = 246 960
 NSWEEP = 256
 Q_ASAN, T_ASAN = NCROSS + NSWEEP + 50000, NCROSS + NSWEEP + 5000000
-Q_REL, T_REL = NCROSS + NSWEEP + 20000, NCROSS + NSWEEP + 1000000
+Q_REL, T_REL = NCROSS + NSWEEP + 20000, NCROSS + NSWEEP + 5000000
+# p0 = PRNG-derived inputs per case index beyond the cross product and the sweeps (the thorough stages take 8, which keeps
+# the number of fingerprints the driver has to hold at 10 M while 80 M inputs are tried)
+DEEP = {0: 8}
 
 CFG = dict(
     stages=[
-        seq("asan", "asan", SRC, Q_ASAN, T_ASAN),
-        seq("rel", "rel", SRC, Q_REL, T_REL),
+        seq("asan", "asan", SRC, Q_ASAN, 0),
+        seq("rel", "rel", SRC, Q_REL, 0),
+        seq("asan_deep", "asan", SRC, 0, T_ASAN, params=DEEP),
+        seq("rel_deep", "rel", SRC, 0, T_REL, params=DEEP),
     ],
     rule=("case index < 246960: one element of the full cross product scheme{absent,http,https,s3,a} x userinfo{absent,u,u:p,u:,:p,empty} x "
           "host{example.com,10.0.0.1,[::1],[2001:db8::8:800:200c:417a],empty,h} x port{absent,empty,0,1,80,65535,65536,4294967295,"
@@ -38,7 +43,7 @@ CFG = dict(
                  "encoders are only given dynamic buffers (aws_byte_buf_reserve requires an allocator)"],
     min_counts={"any": {
         "cross_product_cases": 2 * NCROSS, "byte_value_sweep_cases": 2 * NSWEEP,
-        "decode_percent_pair_sweep_calls": 2 * 256 * 256, "encode_start_length_sweep_calls": 2 * 256 * 82,
+        "decode_percent_pair_sweep_calls": 2 * 256 * 320, "encode_start_length_sweep_calls": 2 * 256 * 82,
         "ipv6_brackets_stripped": 1000, "port_above_u32_rejected": 1000, "port_u64_overflow_rejected": 1000,
         "port_above_65535_accepted": 1000, "empty_host": 1000, "query_without_path": 1000,
         "builder_roundtrip_query_string": 1000, "builder_roundtrip_param_list": 1000, "builder_port_10_digits": 100,
